@@ -949,3 +949,21 @@ pub(crate) async fn prepare_request(
     };
     Ok((QueryEnv::new(env), validation_result.cache_control))
 }
+
+#[cfg(feature = "verif-hooks")]
+#[doc(hidden)]
+pub fn verif_check_recursive_depth(doc: &ExecutableDocument, max_depth: usize) -> ServerResult<()> {
+    check_recursive_depth(doc, max_depth)
+}
+
+#[cfg(feature = "verif-hooks")]
+#[doc(hidden)]
+pub fn verif_check_max_directives(doc: &ExecutableDocument, max_directives: usize) -> ServerResult<()> {
+    check_max_directives(doc, max_directives)
+}
+
+#[cfg(feature = "verif-hooks")]
+#[doc(hidden)]
+pub fn verif_remove_skipped_selection(selection_set: &mut SelectionSet, variables: &Variables) {
+    remove_skipped_selection(selection_set, variables)
+}
